@@ -1,4 +1,5 @@
 import CDVProofs.Flags
+import CDVProofs.Header
 /-! # C11 — flags convert without loss; nothing unrepresentable is silently dropped -/
 namespace CDV.Props.C11
 open CDV
@@ -18,6 +19,28 @@ theorem C11_unknown_raises (F : FlagTable) (w i : Nat) (hi : w.testBit i = true)
 /-- the conversion names exactly the bits that are set -/
 theorem C11_names_exact (F : FlagTable) (w : Nat) (s : List Nat) (h : toFlags F w = .ok s) (i : Nat) :
     i ∈ s ↔ (i ∈ F.known ∧ w.testBit i = true) := toFlags_mem F w s h i
+
+/-- **Never silently lossy on the flag word.**  For any code object header whatsoever — any flag word (altered by hand or
+    not), any argument counts, any variable tables, any table of known flags: if the header part of `from_code` returns at
+    all, the flags `to_code` re-derives from what it returned are exactly `co_flags`.  Equivalently: a flag that is not
+    consumed into a field, or that contradicts the tables (CO_NOFREE), makes `from_code` raise. -/
+theorem C11_header_flags_no_loss (v : Ver) (F : FlagTable) (argc pos kw fl : Nat) (varnames freevars cellvars : List PStr)
+    (constants : List Const) (tp : Option Function) (ann nested : Bool) (args : Args)
+    (hA : F.annotations ∉ [bOPTIMIZED, bNEWLOCALS, bVARARGS, bVARKEYWORDS, bNESTED, bGENERATOR, bNOFREE, bCOROUTINE, bASYNC_GENERATOR])
+    (h : decodeHeader v F argc pos kw fl varnames freevars cellvars constants = .ok (tp, ann, nested, args)) :
+    fromFlags (flagsOut F tp freevars cellvars ann nested) = fl :=
+  header_flags_roundtrip v F argc pos kw fl varnames freevars cellvars constants tp ann nested args hA h
+
+/-- … and on the argument counts, for headers whose parameter names are distinct and present in `co_varnames`
+    (for other headers the check decides: altered counts either raise or reproduce). -/
+theorem C11_header_counts_no_loss (argc pos kw : Nat) (varnames : List PStr) (varargs varkw : Bool) (a : Args)
+    (h : argsFromInput ⟨argc, pos, kw, varnames, varargs, varkw⟩ = .ok a)
+    (hlen : argc + kw + (if varargs then 1 else 0) + (if varkw then 1 else 0) ≤ varnames.length)
+    (hnodup : (varnames.take (argc + kw + (if varargs then 1 else 0) + (if varkw then 1 else 0))).Nodup) :
+    a.posOnly.length = pos ∧ a.posOnly.length + a.posOrKw.length = argc ∧ a.kwOnly.length = kw ∧
+    a.varPos.isSome = varargs ∧ a.varKw.isSome = varkw :=
+  let ⟨h1, h2, h3, h4, h5, _, _⟩ := header_args_roundtrip argc pos kw varnames varargs varkw a h hlen hnodup
+  ⟨h1, h2, h3, h4, h5⟩
 
 /-- non-vacuity on the 3.8 table: 0x43 converts, 0x4000043 raises (the witness of the repaired defect) -/
 example : toFlags ⟨[0,1,2,3,4,5,6,7,8,9,17,18,19,20,21,22,23,24], 24⟩ 0x43 = .ok [0, 1, 6] := by rfl
